@@ -7,23 +7,24 @@ From IggyV Require Import Base.Tactics Base.ListX Model.Part Proofs.PartBasics P
 Open Scope N_scope.
 
 Definition firstoff (l : list msg) (d : N) : N := match l with m :: _ => m_off m | [] => d end.
+Definition lastts (l : list msg) : N := match last_opt l with Some m => m_ts m | None => 0 end.
 
 (* index file vs log file: entry k describes batch k *)
 Fixpoint aligned (st pos : N) (L : list batch) (I : list index) : Prop :=
   match L, I with
   | [], [] => True
   | b :: L', i :: I' =>
-      i_pos i = pos /\ i_off i = lastoff (b_msgs b) 0 - st /\ i_ts i <> 0 /\ aligned st (pos + bbytes b) L' I'
+      i_pos i = pos /\ i_off i = lastoff (b_msgs b) 0 - st /\ (i_ts i <> 0 /\ i_ts i = lastts (b_msgs b)) /\ aligned st (pos + bbytes b) L' I'
   | _, _ => False
   end.
 
 Lemma aligned_app st pos L I b i :
-  aligned st pos L I -> i_pos i = pos + log_bytes L -> i_off i = lastoff (b_msgs b) 0 - st -> i_ts i <> 0 ->
+  aligned st pos L I -> i_pos i = pos + log_bytes L -> i_off i = lastoff (b_msgs b) 0 - st -> (i_ts i <> 0 /\ i_ts i = lastts (b_msgs b)) ->
   aligned st pos (L ++ [b]) (I ++ [i]).
 Proof.
   revert pos I; induction L as [|b0 L IH]; intros pos I H Hp Ho Ht; destruct I as [|i0 I]; cbn [aligned app] in *; try contradiction.
-  - cbn [log_bytes fold_right] in Hp. rewrite N.add_0_r in Hp. repeat split; assumption.
-  - destruct H as (H1 & H2 & H3 & H4). repeat split; try assumption.
+  - cbn [log_bytes fold_right] in Hp. rewrite N.add_0_r in Hp. destruct Ht as [Ht1 Ht2]. repeat split; assumption.
+  - destruct H as (H1 & H2 & [H3 H3'] & H4). repeat split; try assumption.
     apply IH; try assumption. cbn [log_bytes fold_right] in Hp. fold (log_bytes L) in Hp. lia.
 Qed.
 Lemma aligned_nil_idx st pos I : aligned st pos [] I -> I = [].
@@ -41,7 +42,7 @@ Qed.
 Lemma idx_find_ts st pos L I x e : aligned st pos L I -> idx_find x I = Some e -> i_ts e <> 0.
 Proof.
   revert pos I; induction L as [|b L IH]; intros pos I H F; destruct I as [|i I]; cbn [aligned] in H; try contradiction; [discriminate|].
-  destruct H as (H1 & H2 & H3 & H4). cbn [idx_find] in F. destruct (x <=? i_off i); [injection F as <-; exact H3 | apply (IH _ _ H4 F)].
+  destruct H as (H1 & H2 & H3 & H4). cbn [idx_find] in F. destruct (x <=? i_off i); [injection F as <-; exact (proj1 H3) | apply (IH _ _ H4 F)].
 Qed.
 
 (* ---------- filters over gap-free runs ---------- *)
@@ -160,7 +161,7 @@ Qed.
 Lemma aligned_ts st pos L I : aligned st pos L I -> Forall (fun i => i_ts i <> 0) I.
 Proof.
   revert pos I; induction L as [|b L IH]; intros pos I H; destruct I as [|i I]; cbn [aligned] in H; try contradiction; [constructor|].
-  destruct H as (H1 & H2 & H3 & H4). constructor; [exact H3 | apply (IH _ _ H4)].
+  destruct H as (H1 & H2 & H3 & H4). constructor; [exact (proj1 H3) | apply (IH _ _ H4)].
 Qed.
 
 Lemma range_scan_eq st pos L I rs re a b :
@@ -198,7 +199,7 @@ Record swf (s : seg) : Prop := {
   w_pos : s_lastpos s = log_bytes (s_log s);
   w_bytes : log_bytes (s_log s) < B32;
   w_acc : forall a, s_acc s = Some a -> a_msgs a <> [] ->
-            a_base a = firstoff (a_msgs a) 0 /\ a_cur a = lastoff (a_msgs a) 0 /\ a_ts a <> 0
+            a_base a = firstoff (a_msgs a) 0 /\ a_cur a = lastoff (a_msgs a) 0 /\ (a_ts a <> 0 /\ a_ts a = lastts (a_msgs a))
 }.
 
 Lemma firstoff_contig o l d : contig o l -> l <> [] -> firstoff l d = o.
